@@ -25,6 +25,7 @@ NARROW_AFTER_CHECK = {
 
 def run(ctx):
     node_changes_are_append_only(ctx, '11')
+    every_packed_occurrence_is_counted(ctx, '11')
     shared.borrow(ctx, 'C03', '8y ', '10y postponed-removal-keeps-its-place-in-the-log-order')   # F59 also leaves the entries of the removed tree allocated after a crash
     shared.borrow(ctx, 'C11', '3x2 ', '10x2 later-writes-of-the-root-wait-for-its-pending-removal')   # F49 also breaks the slot accounting / the content of the re-inserted tree
     shared.walk_frees_children_of_the_root_found(ctx, '10w')   # F69
@@ -204,3 +205,55 @@ def node_changes_are_append_only(ctx, p):
     ctx.ob(p + 'a node-changes-append-only', 'K4-confinement', 'column::HashColumn::claim_tree_values',
            'between the flattening of a tree and the change set nothing removes, filters or de-duplicates node changes (one IncrementReference per occurrence of an existing node, as the removal walk decrements)',
            not bad and nvec >= 2, '; '.join(bad) or 'node-change vectors seen: %d' % nvec)
+
+
+def every_packed_occurrence_is_counted(ctx, p):
+    """The flattening packs the address of an EXISTING child once per occurrence in a child list, and the removal walk decrements once per
+    packed address. So on the `Existing` arm of every match on a NodeRef in the flattening, the increment may be skipped only on the
+    append_only edge (such a column never removes): a skip that depends on anything else - the position in the list, an "already seen"
+    set - gives a node listed twice one reference and takes two away (freed under a live tree)."""
+    F = ctx.F
+    adt = F.adts.get('multitree::NodeRef')
+    ex = [i for i, v in enumerate(adt['variants']) if v.get('name') == 'Existing'] if adt else []
+    ctx.ob(p + 'b0 noderef-anchor', 'anchor', 'multitree::NodeRef', 'NodeRef has a variant Existing', len(ex) == 1, str(adt and [v.get('name') for v in adt['variants']]))
+    if len(ex) != 1:
+        return
+    ex = ex[0]
+    INC = 'Adt:db::NodeChange::IncrementReference'
+
+    def builds_inc(b):
+        return [bi for bi in b.normal_blocks() if any(st['k'] == 'assign' and st['r']['k'] == 'agg' and st['r'].get('ak') == INC for st in b.blocks[bi]['s'])]
+    fam = lib.family(F, 'column::HashColumn::claim_tree_values')
+    helpers = set(b.path for b in F.bodies.values() if builds_inc(b) and not any(bi for bi in b.normal_blocks() if b.term(bi)['k'] == 'switch' and _noderef_switch(b, bi)))
+    n = 0
+    for b in fam:
+        for bi in sorted(b.normal_blocks()):
+            t = b.term(bi)
+            if t['k'] != 'switch' or not _noderef_switch(b, bi):
+                continue
+            arm = [tg for v, tg in zip(t['vals'], t['ts']) if v == ex]
+            if not arm and len(t['ts']) == len(t['vals']) + 1 and len(adt['variants']) == len(t['vals']) + 1:
+                arm = [t['ts'][-1]]        # Existing is the otherwise edge
+            if not arm:
+                continue
+            other = set(t['ts']) - set(arm)
+            inc = set(builds_inc(b)) | set(x for x, tt in b.calls() if x in b.normal_blocks() and any(nm in helpers for nm in call_names(tt)))
+            # does this match flatten at all? (the arm or the code after it packs / returns the address: the new-node arm claims a node)
+            if not inc and not any(call_matches(tt, ['re:HashColumn::claim_node$']) for _, tt in b.calls()):
+                continue
+            n += 1
+            heads = set(lp['head'] for lp in lib.for_loops_over(b))
+            ends = set(b.return_blocks()) | heads | set(x for x, tt in b.calls() if call_matches(tt, ['re:u64::to_le_bytes$', 'core::num::<impl u64>::to_le_bytes']))
+            skip_ok = lib.prune_bool_field(b, '.HashColumn.append_only', False) | lib.prune_bool_field(b, '.TablesRef.append_only', False)
+            w = b.find_path(arm, ends, removed=inc | core.error_exit_blocks(b) | (other - set(arm)), removed_edges=frozenset(skip_ok))
+            ctx.ob(p + 'b every-packed-occurrence-is-counted %s' % b.path, 'K3-guard', b.path,
+                   'on the Existing arm of the flattening every occurrence of an existing child pushes an IncrementReference; the only edge that skips it is the test of append_only (the removal walk decrements once per packed address)',
+                   w is None and bool(inc), ('an occurrence is packed without its increment: ' + lib.short_path(b, w)) if w is not None else ('no increment on the arm' if not inc else ''), b.loc(arm[0]))
+    ctx.ob(p + 'b1 flattening-match-anchor', 'anchor', 'column::HashColumn::claim_tree_values', 'the flattening matches on NodeRef where it packs child addresses', n >= 1, 'matches found: %d' % n)
+
+
+def _noderef_switch(b, bi):
+    d = lib.switch_def(b, bi)
+    if not d or d[2] != 'assign' or d[3]['r']['k'] != 'discr':
+        return False
+    return re.match(r'^(&(mut )?)*multitree::NodeRef$', str(b.locals[d[3]['r']['p'][0]])) is not None
